@@ -149,7 +149,14 @@ func c02Body(r *Run) {
 	if mixed {
 		nHandlers = 1 + t.Skewed(3)
 	}
-	rig := newRouterRig(r, 30*time.Second)
+	// a fifth of the mixed runs: every invocation takes five seconds and the Router is closed (CloseTimeout one second)
+	// while they run: the close times out, the invocations go on and settle their messages as always
+	slowClose := mixed && t.Chance(1, 5)
+	closeTimeout := 30 * time.Second
+	if slowClose {
+		closeTimeout = time.Second
+	}
+	rig := newRouterRig(r, closeTimeout)
 	var hs []*c2Handler
 	invoked := map[*Delivery]int{}
 	inPublishUnsettled := 0
@@ -206,6 +213,9 @@ func c02Body(r *Run) {
 			}
 			invoked[d]++
 			d.Started = r.Sim.Step()
+			if slowClose {
+				time.Sleep(5 * time.Second)
+			}
 			p := h.planFor(d)
 			r.Logf("handler %s invoked for %s attempt %d: %s", h.name, msg.UUID, d.Attempt, hbNames[p.hb])
 			defer func() { d.Finished = r.Sim.Step() }()
@@ -380,6 +390,13 @@ func c02Body(r *Run) {
 	})
 
 	rig.Start()
+	if slowClose {
+		go func() {
+			time.Sleep(100 * time.Millisecond)
+			r.Fault("router-close-times-out-while-handlers-run")
+			rig.Router.Close()
+		}()
+	}
 	r.Sim.Quiesce()
 	r.Logf("--- closing router")
 	if err := rig.Router.Close(); err != nil {
